@@ -233,6 +233,8 @@ PROPS['C14'] = {
     'level': 'exploration',
     'runs': [{'name': 'asan', 'flavour': 'asan', 'driver': 'drv_c14', 'timeout': 1800},
              {'name': 'asan-dbg', 'flavour': 'asan-dbg', 'driver': 'drv_c14', 'env': {'PV_SCALE': '25'}, 'shards': 6, 'timeout': 1800},
+             {'name': 'memcheck', 'flavour': 'plain', 'driver': 'drv_c14', 'env': {'PV_SCALE': '4'}, 'shards': 12, 'tiers': ('thorough',), 'log_scan': 'memcheck',
+              'wrapper': ['valgrind', '--tool=memcheck', '--quiet', '--error-exitcode=0', '--track-origins=no', '--undef-value-errors=yes'], 'timeout_thorough': 7200},
              {'name': 'fuzz-phrase', 'kind': 'fuzz', 'flavour': 'fuzz', 'driver': 'fuzz_api', 'mode': 0, 'runs_quick': 150000, 'runs_thorough': 5000000},
              {'name': 'fuzz-password', 'kind': 'fuzz', 'flavour': 'fuzz', 'driver': 'fuzz_api', 'mode': 1, 'runs_quick': 100000, 'runs_thorough': 3000000},
              {'name': 'fuzz-buffer', 'kind': 'fuzz', 'flavour': 'fuzz', 'driver': 'fuzz_api', 'mode': 2, 'runs_quick': 200000, 'runs_thorough': 8000000}],
